@@ -15,6 +15,8 @@ fn main() {
     let ctx = Ctx::new(args.clone());
     let replay_case = args.replay.as_ref().map(load_replay);
     let cov: Coverage = match (args.property.as_str(), &replay_case) {
+        ("C04", None) => checks::c04::run(&ctx),
+        ("C04", Some(r)) => checks::c04::replay(&ctx, &r["case"]),
         ("C05", None) => checks::cfgstate::run_c05(&ctx),
         ("C06", None) => checks::cfgstate::run_c06(&ctx),
         ("C07", None) => checks::cfgstate::run_c07a(&ctx),
